@@ -37,6 +37,7 @@ def run(ctx):
     check_container_handles(ctx, prog)
     check_ranges(ctx, prog)
     check_tostring(ctx, prog)
+    ctx.floor('C04.neq', check_neq(ctx, prog), 1)
     # a Var object is a Dic<Var>: keys enter the sorted array through the key search only (shared rule C02.map)
     import C02
     C02.check_map(ctx, prog)
@@ -197,6 +198,60 @@ def check_tags(ctx, prog, tags):
     missing = [v for v in vals if v not in covered]
     ctx.check(not missing, 'R-TAG', f['pq'], 'operator==:every value-carrying tag compared', fwhere(f), 'covers %s' % sorted(covered),
               'operator== has no case for tag value(s) %s: such Vars never compare equal to themselves' % missing)
+
+
+def check_neq(ctx, prog):
+    """C04.neq: `a != b` is the negation of `a == b` - containers compare their elements with `!=` (Array, Map), so an inequality
+    that answers from anything else than the equality (a tag comparison in front of it: INT 1 and NUMBER 1.0 have different
+    tags and are equal) makes arrays and objects of equal numbers unequal.  Every `operator!=` of Var that calls `operator==` on
+    the same operands is evaluated as a truth table over its atoms: its value is `!(==)` whatever the other atoms are."""
+    import itertools
+    n = 0
+    seen = set()
+    for f in prog.functions:
+        if f.get('cls') != 'asl::Var' or f.get('n') != 'operator!=' or not f.get('body') or f.get('implicit') or len(f['params']) != 1:
+            continue
+        key = (f.get('file'), f.get('line'))
+        if key in seen:
+            continue
+        rets = [s_ for s_ in ir.walk_stmts(f['body']) if s_.get('k') == 'return' and s_.get('e') is not None]
+        if len(rets) != 1 or len(list(ir.walk_stmts(f['body']))) > 2:
+            continue
+        atoms = {}
+
+        def ev(e, env):
+            e = strip(e)
+            while e.get('k') in ('paren', 'cast'):
+                e = strip(e['e'])
+            if e.get('k') == 'bin' and e.get('op') in ('&&', '||'):
+                x, y = ev(e['x'], env), ev(e['y'], env)
+                return (x and y) if e['op'] == '&&' else (x or y)
+            if e.get('k') == 'un' and e.get('op') == '!':
+                return not ev(e['e'], env)
+            t = pe(e)
+            is_eq = e.get('k') == 'call' and (e.get('pq') or '').endswith('::operator==') and (e.get('obj') is not None and alias.is_this_obj(e)) and \
+                strip(e['a'][0]).get('k') == 'var' and strip(e['a'][0]).get('id') == f['params'][0]['id']
+            atoms[t] = is_eq
+            return env.get(t, False)
+        ev(rets[0]['e'], {})
+        eqs = [t for t, q_ in atoms.items() if q_]
+        if len(eqs) != 1:
+            continue
+        seen.add(key)
+        n += 1
+        ctx.analysed(f)
+        names = sorted(atoms)
+        bad = None
+        for vals in itertools.product((False, True), repeat=len(names)):
+            env = dict(zip(names, vals))
+            if ev(rets[0]['e'], env) != (not env[eqs[0]]):
+                bad = env
+                break
+        role = 'operator!=%s:the negation of operator==' % (f.get('sig') or '')
+        ctx.check(bad is None, 'C04.neq', f['pq'], role, fwhere(f), 'truth table over %d atom(s): the value is !(%s) in every row' % (len(names), eqs[0]),
+                  'operator!=%s does not answer from the equality alone: with %s it returns %s although `%s` is %s - two values that are equal (an INT and a NUMBER of the same value have different tags) are also reported as different, and arrays / objects, which compare their elements with !=, become unequal' % (
+                      f.get('sig') or '', ', '.join('`%s` %s' % (k_, 'true' if v_ else 'false') for k_, v_ in sorted((bad or {}).items()) if k_ != eqs[0]), 'true' if bad and ev(rets[0]['e'], bad) else 'false', eqs[0], 'true' if bad and bad[eqs[0]] else 'false'))
+    return n
 
 
 def var_risk(f, p):
